@@ -361,7 +361,7 @@ fn svd_case(rng: &mut Rng) {
     let (pts, dim) = point_set(rng, two_d);
     let n = pts.len();
     let weights: Option<Vec<f64>> = if rng.chance(0.5) {
-        let hi = *rng.pick(&[1.0, 3.0, 20.0]);
+        let hi = *rng.pick(&[1.0, 3.0, 20.0, 1e-9, 1e-13, 1e7]);
         Some((0..n).map(|_| rng.range(0.2, 1.0) * hi).collect())
     } else {
         None
@@ -469,7 +469,9 @@ fn svd_case(rng: &mut Rng) {
     }
     // uniform weight scaling
     if let Some(w) = w {
-        let k = *rng.pick(&[2.0, 0.5, 7.3, 0.01, 100.0]);
+        // "uniformly scaling ALL weights": any common factor - weights have no natural unit (kernel
+        // weights of far-away points, probabilities, counts ...)
+        let k = *rng.pick(&[2.0, 0.5, 7.3, 0.01, 100.0, 1e-6, 1e-12, 3e-15, 1e6, 1e9]);
         let wk: Vec<f64> = w.iter().map(|x| x * k).collect();
         let dk = decompose(&pts, Some(&wk), two_d);
         v.require((dk.center - d.center).norm() <= 1e-11 * size, "svd.weight_scaling_keeps_centre", || format!("{:?} vs {:?}", dk.center, d.center));
